@@ -70,6 +70,18 @@ def seeded_table():
     return head + '\n'.join(rows)
 
 
+def mutants_summary():
+    p = os.path.join(VERIF, 'mutants', 'RESULTS.json')
+    if not os.path.exists(p):
+        return ''
+    r = json.load(open(p))
+    rows = ['Author-written mutants (`mutants/RESULTS.json`):', '', '| mutant | property | outcome |', '|---|---|---|']
+    for name in sorted(r):
+        v = r[name]
+        rows.append(f'| {name} | {v["property"]} | {v["status"][:170]} |')
+    return '\n'.join(rows)
+
+
 def main():
     p = os.path.join(VERIF, 'DESIGN.md')
     s = open(p, encoding='utf-8').read()
@@ -86,7 +98,7 @@ def main():
             s = s[:j].rstrip('\n') + '\n\n' + block + '\n\n' + s[j:].lstrip('\n')
     a, b = '<!-- SEEDED -->', '<!-- /SEEDED -->'
     if a in s:
-        s = re.sub(re.escape(a) + '.*?' + re.escape(b), lambda m: a + '\n' + seeded_table() + '\n' + b, s, flags=re.S)
+        s = re.sub(re.escape(a) + '.*?' + re.escape(b), lambda m: a + '\n' + seeded_table() + '\n\n' + mutants_summary() + '\n' + b, s, flags=re.S)
     open(p, 'w', encoding='utf-8').write(s)
 
 
